@@ -288,7 +288,8 @@ def rule_guard(ctx, px):
     raises = []
     for st, gd in pyfront.walk_guarded(a.node.body):
         if isinstance(st, ast.Raise):
-            raises.append(pyfront.guard_terms(gd))
+            # a condition held in a local (`already_defined = name in collection`) is spelled as its expression
+            raises.append(pyfront.guard_terms([(pyfront.subst_locals(a.node, t_), p_) for t_, p_ in gd]))
     aps = [x.arg for x in a.node.args.args if x.arg != "self"]
     if len(aps) < 3:
         raise AnalysisError("anchor changed: _add_to_environment(name, item, collection)")
